@@ -554,7 +554,8 @@ class PredEval:
         if fn == "typing.get_origin":
             a = args[0] if args else None
             if isinstance(a, TypeArg):
-                return TypeArg(a.cls) if a.subscripted else ("none",)
+                # the origin of an alias of a user generic (a flagged descriptor) is that class, structure included
+                return TypeArg(a.cls, flags=frozenset(f for f in a.flags if f != "instance")) if a.subscripted else ("none",)
             return None
         if fn in (f"{INSP}.args", "typing.get_args"):
             a = args[0] if args else None
@@ -768,6 +769,10 @@ def param_spelling_agreement(prog: Program, rep, rule: str):
         (TypeArg("re.Pattern"), TypeArg("re.Pattern", True, ("builtins.str",))),
         (TypeArg("re.Pattern"), TypeArg("re.Pattern", True, ("builtins.bytes",))),
     ]
+    # ... and a parameterised generic NamedTuple / TypedDict (`Tagged[str]`) is the structured class, not a tuple / mapping
+    for a in catalogue():
+        if a.flags and "annotated" in a.flags and not a.subscripted:
+            pairs.append((a, TypeArg(a.cls, True, ("builtins.int",), a.flags)))
     n = 0
     for d in ("marshal", "unmarshal"):
         rows = handlers(prog, d)
@@ -780,7 +785,8 @@ def param_spelling_agreement(prog: Program, rep, rule: str):
                 rep.undecided(rule, key, rows[0].loc, f"routing of {bare.label()} / {sub.label()} could not be evaluated")
                 continue
             same = (kb, rb.routine_ref if rb else None) == (ks, rs.routine_ref if rs else None)
-            rep.check(same, rule, key, rows[0].loc, f"{sub.label()} is served like {bare.label()} ({rb.pred_name if rb else 'fallback'})", f"{sub.label()} is not recognised by the row that serves {bare.label()} ({rb.pred_name if rb else 'fallback'}: the predicate applies issubclass to the alias, not to its origin) and falls to {'the structured fallback' if rs is None else rs.pred_name}: marshal raises TypeError (vars() argument must have __dict__), unmarshal cannot create 're.Pattern' instances")
+            key = f"{d}:{sub.label()}{'+' + '+'.join(sorted(sub.flags)) if sub.flags else ''}"
+            rep.check(same, rule, key, rows[0].loc, f"{sub.label()} is served like {bare.label()} ({rb.pred_name if rb else 'fallback'})", f"{sub.label()} is not recognised by the row that serves {bare.label()} ({rb.pred_name if rb else 'fallback'}: the predicate looks at the alias, not at its origin) and is taken by {'the structured fallback' if rs is None else rs.pred_name}: re.Pattern[str] -> TypeError in vars(); a parameterised generic NamedTuple is built as Tagged(value=<generator>), a generic TypedDict raises at construction")
     return n
 
 
